@@ -1,5 +1,6 @@
 import Momo.Proof.MMapHist
 import Momo.Proof.MMapHT
+import Momo.Proof.TrEqMisc2Bucket
 /-!
 # C08 — Hash multimap equals the abstract key → value-list map
 
@@ -406,5 +407,62 @@ example : mkState 15 15 = 255 ∧ mkState 3 2 = 50 ∧ statePool 50 = 3 ∧ stat
 /-- a value array with `maxFastCount = 1` after 3 additions and a removal: heap array of capacity 2 -/
 example : ([VOp.add 1, .add 2, .add 3, .removeAt 0 false].foldl (VArr.step 1) VArr.empty)
     = ⟨.heap 4, [3, 2]⟩ := by decide
+
+/-! ### The code itself, not only the hand-written model (T1b)
+
+`Momo.Tr.*` are Lean definitions regenerated on every check by tools/translate.py from the *function bodies* in the
+current headers (area Misc: tools/trspecs/Misc.py → `Momo/Translated/Misc.lean`; C++ integer semantics explicit: `size_t`
+wrap-around, promotion of the state byte to `int` and truncation back to `uint8_t`). Equivalences with the model:
+`Proof/TrEqMisc2Bucket.lean`. -/
+
+/-- **State byte round trip for the code as translated from details/ArrayBucket.h.** `pvMakeState`, `pvGetMemPoolIndex`,
+`pvGetFastCount` as translated are the model's `mkState / statePool / stateCount`; for every `maxFastCount < 16` and every
+fast state that can occur the translated decoders recover pool index and count from the translated encoder, a fast state is
+never 0, and the translated in-place updates `pvSetState(pvGetState() + 1)` (AddBackCrt) and `pvSetState(pvGetState() - 1)`
+(RemoveBack; an `int` subtraction truncated to a byte) equal the re-encoded state. -/
+theorem C08_state_byte_roundtrip_translated (mf pool count : Nat) (hmf : mf < Extracted.abMaxFastLimit)
+    (hp : pool ≤ mf) (hc : count ≤ pool) :
+    Tr.ab_pvMakeState pool count < 256 ∧
+    Tr.ab_pvGetMemPoolIndex (Tr.ab_pvMakeState pool count) = pool ∧
+    Tr.ab_pvGetFastCount (Tr.ab_pvMakeState pool count) = count ∧
+    (pool ≠ 0 → Tr.ab_pvMakeState pool count ≠ 0) ∧
+    (count < pool → Tr.ab_AddBack_incState (Tr.ab_pvMakeState pool count) = Tr.ab_pvMakeState pool (count + 1)) ∧
+    (0 < count → Tr.ab_RemoveBack_decState (Tr.ab_pvMakeState pool count) = Tr.ab_pvMakeState pool (count - 1)) := by
+  simp only [TrEq.tr_mkState, TrEq.tr_statePool, TrEq.tr_stateCount, TrEq.tr_incState, TrEq.tr_decState]
+  exact C08_state_byte_roundtrip mf pool count hmf hp hc
+
+/-- **`AddBackCrt` / `RemoveBack` with the translated arithmetic.** The value-array operations `C08_value_array_refines` is
+about (`VArr.addBack`, `VArr.removeBack`) choose pool, state byte, first heap capacity (`maxFastCount * 2`) and the shrink
+rule (`2 < count && count <= capacity / 4` → `Shrink(count * 2)`) exactly as the code translated from the header does. -/
+theorem C08_value_array_ops_translated (mf : Nat) (hmf : mf < Extracted.abMaxFastLimit) (a : VArr) (v : Nat) (shrinkFails : Bool)
+    (hlen : a.items.length < 2 ^ 63) :
+    VArr.addBack mf a v =
+      (match a.rep with
+      | .none => ⟨.fast (Tr.ab_pvMakeState (Tr.ab_pvGetFastMemPoolIndex 1) 1), [v]⟩
+      | .fast s =>
+        if Tr.ab_pvGetFastCount s = Tr.ab_pvGetMemPoolIndex s then
+          if Tr.ab_pvGetFastCount s + 1 ≤ mf then
+            ⟨.fast (Tr.ab_pvMakeState (Tr.ab_pvGetFastMemPoolIndex (Tr.ab_pvGetFastCount s + 1)) (Tr.ab_pvGetFastCount s + 1)),
+              a.items.take (Tr.ab_pvGetFastCount s) ++ [v]⟩
+          else ⟨.heap (Tr.ab_AddBack_heapCap mf), a.items.take (Tr.ab_pvGetFastCount s) ++ [v]⟩
+        else ⟨.fast (Tr.ab_AddBack_incState s), a.items.take (Tr.ab_pvGetFastCount s) ++ [v]⟩
+      | .heap cap =>
+        if a.items.length < cap then ⟨.heap cap, a.items ++ [v]⟩
+        else ⟨.heap (growCap cap (a.items.length + 1)), a.items ++ [v]⟩) ∧
+    VArr.removeBack a shrinkFails =
+      (if a.count = 1 then VArr.empty
+      else
+        match a.rep with
+        | .none => a
+        | .fast s => ⟨.fast (Tr.ab_RemoveBack_decState s), a.items.take (Tr.ab_pvGetFastCount s - 1)⟩
+        | .heap cap =>
+          if Tr.ab_RemoveBack_shrinkCond a.items.length cap = true ∧ shrinkFails = false then
+            ⟨.heap (shrinkCap cap (a.items.length - 1) (Tr.ab_RemoveBack_shrinkCap a.items.length)), a.items.dropLast⟩
+          else ⟨.heap cap, a.items.dropLast⟩) := by
+  simp only [Extracted.abMaxFastLimit] at hmf
+  exact ⟨TrEq.addBack_translated mf (by omega) a v, TrEq.removeBack_translated a shrinkFails hlen⟩
+
+example : Tr.ab_pvMakeState 15 15 = 255 ∧ Tr.ab_pvMakeState 3 2 = 50 ∧ Tr.ab_pvGetMemPoolIndex 50 = 3 ∧ Tr.ab_pvGetFastCount 50 = 2 ∧
+    Tr.ab_RemoveBack_decState 50 = 49 ∧ Tr.ab_AddBack_incState 49 = 50 ∧ Tr.ab_RemoveBack_shrinkCond 4 16 = true := by decide
 
 end Momo.MMap
